@@ -95,7 +95,7 @@ func Verif_C16_E3_IntoWriter() {
 func verifC16RetryOptions(failures int) []verifC16Opt {
 	opts := []verifC16Opt{
 		{kinds: []int{verifC16HandlerError, verifC16Reader, verifC16Chunk, verifC16ErrBuf, verifC16CASSlice}, level: verifC16Lean},
-		{kinds: []int{verifC16HandlerError, verifC16ErrBuf, verifC16CASSlice}, level: verifC16Lean},
+		{kinds: []int{verifC16HandlerError, verifC16CASSlice}, level: verifC16Lean},
 	}
 	if vnd.Thorough() {
 		opts[1].kinds = opts[0].kinds
@@ -107,6 +107,9 @@ func verifC16RetryOptions(failures int) []verifC16Opt {
 // verifC16CheckRetried: oracle parts shared by ToByteSlice and ReadAt.
 func verifC16CheckRetried(ref *verifRef, h *verifC16Handler, err error) {
 	last := h.bufs[len(h.bufs)-1]
+	for last.kind == verifC16Wrapped {
+		last = last.inner.bufs[len(last.inner.bufs)-1]
+	}
 	if err == nil {
 		vnd.Cover("c16-retry-completed")
 		vnd.Assert(h.lastErr == nil, "operation succeeded although the handler returned an error")
@@ -125,7 +128,11 @@ func verifC16CheckRetried(ref *verifRef, h *verifC16Handler, err error) {
 		vnd.Cover("c16-retry-failed")
 		vnd.Assert(err == h.lastErr, "consumer's error is not what the handler returned last")
 	}
-	for _, b := range h.bufs {
+	all := h.bufs
+	if h.bufs[0].kind == verifC16Wrapped {
+		all = append(append([]*verifC16Buf{}, h.bufs[0].inner.bufs...), h.bufs[1:]...)
+	}
+	for _, b := range all {
 		if b.st == nil {
 			continue
 		}
@@ -152,7 +159,7 @@ func Verif_C16_E4_ToByteSlice() {
 // Verif_C16_E5_ReadAt: ReadAt(p, off), retried in its entirety.
 func Verif_C16_E5_ReadAt() {
 	ref, h, b := verifC16Setup(verifC16StreamKinds, verifC16Medium, verifC16RetryOptions(1), true)
-	off := vnd.Choose(ref.n + 2)
+	off := vnd.Choose(ref.n + 1)
 	p := make([]byte, 1+vnd.Choose(2))
 	n, err := b.ReadAt(p, int64(off))
 	var cerr error
@@ -303,8 +310,12 @@ func Verif_C16_E7_KnownState() {
 // the handler then answers with an error), every buffer drawn lean, consumed
 // through one of the three stitching consumers.
 func Verif_C16_E8_TwoFailures() {
-	first := []int{verifC16Reader, verifC16Chunk, verifC16ErrBuf, verifC16Slice}
-	second := []int{verifC16HandlerError, verifC16Slice, verifC16Reader, verifC16Chunk, verifC16ErrBuf}
+	first := []int{verifC16Reader, verifC16Chunk, verifC16ErrBuf}
+	second := []int{verifC16HandlerError, verifC16Slice, verifC16Reader}
+	if vnd.Thorough() {
+		first = append(first, verifC16Slice)
+		second = append(second, verifC16Chunk, verifC16ErrBuf)
+	}
 	options := []verifC16Opt{{kinds: first, level: verifC16Lean}, {kinds: second, level: verifC16Lean}}
 	ref, h, b := verifC16Setup(verifC16StreamKinds, verifC16Lean, options, false)
 	var got []byte
@@ -328,7 +339,12 @@ func Verif_C16_E8_TwoFailures() {
 			err = nil
 		}
 	case 1:
-		off = vnd.Choose(ref.n + 1)
+		if ref.n > 0 {
+			off = 1
+		}
+		if vnd.Thorough() {
+			off = vnd.Choose(ref.n + 1)
+		}
 		cr := b.ToChunkReader(int64(off), 2)
 		for i := 0; i < 2*(ref.n+2)+4; i++ {
 			var c []byte
@@ -357,4 +373,92 @@ func Verif_C16_E8_TwoFailures() {
 	verifC16CheckStreamed(ref, h, off, got, err)
 	vnd.ObserveBytes("got", got)
 	vnd.Observe("calls", uint64(h.calls), uint64(h.done))
+}
+
+// Verif_C16_E9_Nested: a second handler attached to a buffer that already has
+// one (casErrorHandlingBuffer.applyErrorHandler). The inner handler sees every
+// failure first; what it returns as an error is offered to the outer handler,
+// which may supply a replacement of its own, resumed at the offset reached so
+// far. Both handlers are finished exactly once.
+func Verif_C16_E9_Nested() {
+	maxN := verifC16Bounds()
+	ref := verifNewRef(vnd.Choose(maxN + 1))
+	retried := vnd.Choose(2) == 1
+	innerKinds := []int{verifC16HandlerError, verifC16Reader, verifC16Slice}
+	outerKinds := []int{verifC16HandlerError, verifC16Chunk, verifC16Slice}
+	if retried {
+		innerKinds = []int{verifC16HandlerError, verifC16Reader, verifC16CASSlice}
+		outerKinds = []int{verifC16HandlerError, verifC16Chunk, verifC16CASSlice}
+	}
+	inner := &verifC16Handler{ref: ref, maxT: ref.n + 1, retried: retried,
+		options: []verifC16Opt{{kinds: innerKinds, level: verifC16Lean}}}
+	b0 := verifC16NewBuf(ref, 0, verifC16StreamKinds[vnd.Choose(2)], inner.maxT, verifC16Lean)
+	vnd.Assume(b0.st.end == verifDeliverErr) // the original fails: without a failure no handler is involved (E1-E5)
+	inner.bufs = append(inner.bufs, b0)
+	wrapped := WithErrorHandler(b0.buf, inner)
+	outer := &verifC16Handler{ref: ref, maxT: ref.n + 1, retried: retried, idBase: 4,
+		options: []verifC16Opt{{kinds: outerKinds, level: verifC16Lean}}}
+	outer.bufs = append(outer.bufs, &verifC16Buf{kind: verifC16Wrapped, inner: inner, integ: b0.integ, buf: wrapped})
+	b := WithErrorHandler(wrapped, outer)
+	vnd.Assert(inner.done == 0 && outer.done == 0 && inner.calls == 0 && outer.calls == 0, "attaching a handler to a stream-backed buffer consulted or finished a handler")
+	var got []byte
+	var err error
+	if retried {
+		got, err = b.ToByteSlice(10)
+		if err == nil {
+			vnd.Assert(verifBytesEqual(got, ref.data), "ToByteSlice completed with bytes that are not the object")
+		}
+		verifC16CheckRetried(ref, outer, err)
+	} else {
+		how := 0
+		if vnd.Thorough() {
+			how = vnd.Choose(2)
+		}
+		got, err, _ = verifC16ConsumeStreamed(b, how, 0, ref.n)
+		verifC16CheckStreamed(ref, outer, 0, got, err)
+	}
+	if outer.calls > 0 {
+		vnd.Cover("c16-outer-handler-consulted")
+		if len(outer.bufs) > 1 && err == nil {
+			vnd.Cover("c16-completed-on-outer-replacement")
+		}
+	}
+	vnd.ObserveBytes("got", got)
+	vnd.Observe("calls", uint64(inner.calls), uint64(inner.done), uint64(outer.calls), uint64(outer.done))
+}
+
+// verifC16ConsumeStreamed: ToReader (how = 0, one byte at a time) or
+// ToChunkReader(off, 2) (how = 1), read to the end and closed.
+func verifC16ConsumeStreamed(b Buffer, how, off, n int) (got []byte, err error, usedOff int) {
+	if how == 0 {
+		r := b.ToReader()
+		for i := 0; i < 2*(n+2)+4; i++ {
+			p := make([]byte, 1)
+			var m int
+			m, err = r.Read(p)
+			got = append(got, p[:m]...)
+			if err != nil {
+				break
+			}
+		}
+		vnd.Assert(err != nil, "reader neither finished nor failed within the unwinding bound")
+		r.Close()
+		off = 0
+	} else {
+		cr := b.ToChunkReader(int64(off), 2)
+		for i := 0; i < 2*(n+2)+4; i++ {
+			var c []byte
+			c, err = cr.Read()
+			got = append(got, c...)
+			if err != nil {
+				break
+			}
+		}
+		vnd.Assert(err != nil, "chunk reader neither finished nor failed within the unwinding bound")
+		cr.Close()
+	}
+	if err == io.EOF {
+		err = nil
+	}
+	return got, err, off
 }
